@@ -300,8 +300,11 @@ def explore_branches(run, limit=32):
                 c = False
                 pending.append(list(taken) + [True])
             taken.append(c)
+            decide.conditions.append(v)
             return c
+        decide.conditions = conds = []
         results.append((taken, run(decide)))
+        taken[:] = list(zip(conds, taken)) if len(conds) == len(taken) else taken
         if len(results) > limit:
             raise AnalysisError(f"more than {limit} combinations of data-dependent branches")
     return results
@@ -327,6 +330,33 @@ class _ViewCells(collections.abc.MutableMapping):
 
     def __len__(self):
         return sum(1 for _ in self)
+
+
+def path_substitution(decisions):
+    """{atom: expression} for the tolerance equalities assumed true on a path explored by explore_branches; None when an
+    assumed-true condition cannot be turned into a substitution (its branch can then not be judged)"""
+    sub = {}
+    for item in decisions:
+        if not (isinstance(item, tuple) and len(item) == 2):
+            return None
+        cond, outcome = item
+        if not outcome:
+            continue
+        pair = getattr(cond, "pair", None)
+        if pair is None:
+            return None
+        a, b = (sp.sympify(x).xreplace(sub) for x in pair)
+        if a == b:
+            continue
+        if b.is_Symbol or (isinstance(b, sp.Function) and b.func.__name__ == "GRIDAT"):
+            sub = {k: v.xreplace({b: a}) for k, v in sub.items()}
+            sub[b] = a
+        elif a.is_Symbol or (isinstance(a, sp.Function) and a.func.__name__ == "GRIDAT"):
+            sub = {k: v.xreplace({a: b}) for k, v in sub.items()}
+            sub[a] = b
+        else:
+            return None
+    return sub
 
 
 class ArrV:
@@ -359,6 +389,9 @@ class ArrV:
             if not (isinstance(i, SliceV) and i.lo is None and i.hi is None and i.step is None):
                 if self.batch == 1 and isinstance(i, SliceV):
                     self._grid_index = i          # a slice along the single grid axis: applied to every cell's grid vector
+                    continue
+                if self.batch == 1 and is_sym(i) and i.is_Integer:
+                    self._grid_index = i          # one position of the single grid axis: the value of every cell there
                     continue
                 raise ev.err("non-trivial index on a grid axis", n, mod)
         sets, scalar = [], []
@@ -1366,8 +1399,12 @@ class Ev:
                 return base.get([x[0] for x in sets])
             gi = getattr(base, "_grid_index", None)
             cut = (lambda v: v) if gi is None else (lambda v: self.subscript(as_sym(v), Tup([gi], "tuple"), n, mod) if as_sym(v) != 0 else v)
+            if is_sym(gi):
+                cut = lambda v: as_sym(v) if not as_sym(v).free_symbols else sp.Function("GRIDAT")(as_sym(v), gi)
             out_shape = [len(x) for x, sc in zip(sets, scalar) if not sc]
-            out = ArrV(base.batch, out_shape, cut(base.fill), batch_last=base.batch_last)
+            if is_sym(gi) and all(scalar):
+                return cut(base.get([x[0] for x in sets]))
+            out = ArrV(0 if is_sym(gi) else base.batch, out_shape, cut(base.fill), batch_last=base.batch_last and not is_sym(gi))
             for combo in itertools.product(*[range(len(x)) for x in sets]):
                 src_key = tuple(x[c] for x, c in zip(sets, combo))
                 dst_key = tuple(c for c, sc in zip(combo, scalar) if not sc)
@@ -4105,8 +4142,9 @@ def lib_where3(ev, a, k, n, mod):
 
 
 class TolCond:
-    def __init__(self, text):
+    def __init__(self, text, pair=None):
         self.text = text
+        self.pair = pair        # the two expressions held to be (nearly) equal when the condition is true
 
 
 def lib_isclose_sym(ev, a, k, n, mod):
@@ -4114,7 +4152,7 @@ def lib_isclose_sym(ev, a, k, n, mod):
     if isinstance(x, ArrV):
         from .linalg import isclose
         return isclose(ev, a, k)
-    return TolCond(f"isclose({as_sym(x)}, {as_sym(a[1])}" + "".join(f", {kk}={vv}" for kk, vv in sorted(k.items())) + ")")
+    return TolCond(f"isclose({as_sym(x)}, {as_sym(a[1])}" + "".join(f", {kk}={vv}" for kk, vv in sorted(k.items())) + ")", (as_sym(x), as_sym(a[1])))
 
 
 lib_isclose_sym.kw = {"atol", "rtol"}
@@ -4574,6 +4612,21 @@ def lib_einsum(ev, a, k, n, mod):
 
 
 lib_einsum.kw = set()
+def lib_atleast_2d(ev, a, k, n, mod):
+    x = a[0]
+    if len(a) != 1 or not isinstance(x, ArrV):
+        raise ev.err("numpy.atleast_2d of something other than one array", n, mod)
+    if x.batch + len(x.shape) >= 2:
+        return x
+    if x.batch:
+        raise ev.err("numpy.atleast_2d of a grid vector", n, mod)
+    out = ArrV(0, (1,) + tuple(x.shape), x.fill)
+    out.cells = _ViewCells(x, {(0,) + key: key for key in itertools.product(*[range(d) for d in x.shape])})
+    return out
+
+
+lib_atleast_2d.kw = set()
+LIB.setdefault("numpy.atleast_2d", lib_atleast_2d)
 LIB.setdefault("numpy.diag", lib_diag)
 LIB.setdefault("numpy.einsum", lib_einsum)
 LIB.setdefault("numpy.real", _elementwise(sp.re))
